@@ -161,7 +161,7 @@ theorem cov_roundtrip_exact {Text : Type} (C : JsonCodec Text) (m : Meta) (c : C
     parameter objects as scalars that does not distinguish a NumPy scalar from the Python scalar of
     equal value. -/
 theorem eval_after_roundtrip {α : Type} [Add α] [Sub α] [Mul α] [Div α] [Neg α] [OfNat α 0] [OfNat α 1]
-    [OfScientific α] [Max α] [Transc α]
+    [OfScientific α] [Max α] [LT α] [DecidableLT α] [Transc α]
     {Text : Type} (C : JsonCodec Text) (m : Meta) (c : Cov PyVal) (h : c.paramsWF canonNaN = true)
     (dec : PyVal → α) (hdec : ∀ p, dec p.norm = dec p) :
     ∃ c', covRoundTripJsonWith C m c = .ok c'
